@@ -1617,6 +1617,8 @@ class ThroughputCalculator:
             self.has_samples_in_sample_type = False
             # start relative to the beginning of our (calculation) time slice.
             self.start_time = start_time
+            # unit of the operations that have been counted so far
+            self.unit = None
 
         @property
         def throughput(self):
@@ -1716,6 +1718,9 @@ class ThroughputCalculator:
             # because we would count all raw samples in `unprocessed` twice. Hence, we'll only update
             # `current.total_count` when we have calculated a new throughput sample.
             count += sample.total_ops
+            # failed requests are always sampled with zero "ops", regardless of the unit that the runner uses
+            if sample.total_ops > 0:
+                current.unit = sample.total_ops_unit
             current.update_interval(sample.absolute_time)
 
             if current.can_calculate_throughput():
@@ -1727,7 +1732,7 @@ class ThroughputCalculator:
                         current.sample_type,
                         current.throughput,
                         # we calculate throughput per second
-                        f"{sample.total_ops_unit}/s",
+                        f"{current.unit or sample.total_ops_unit}/s",
                     )
                 )
             else:
@@ -1743,7 +1748,7 @@ class ThroughputCalculator:
                     last_sample.relative_time,
                     current.sample_type,
                     current.throughput,
-                    f"{last_sample.total_ops_unit}/s",
+                    f"{current.unit or last_sample.total_ops_unit}/s",
                 )
             )
 
